@@ -413,6 +413,23 @@ class Repo:
         -> list of dict(kind, attr, node, recv) with kind in
            rebind | elem | mut | del_elem ; attr = attribute name or bare container name (prefixed '$')."""
         out = []
+        # local aliases of an attribute (`edges = self.ownEdges`, bound once, never re-bound): a mutation through the alias is a
+        # mutation of the attribute
+        bound = defaultdict(list)
+        for n in self.own_nodes(func):
+            if isinstance(n, ast.Name) and isinstance(n.ctx, (ast.Store, ast.Del)):
+                bound[n.id].append(n)
+        alias = {}
+        for n in self.own_nodes(func):
+            if isinstance(n, ast.Assign) and len(n.targets) == 1 and isinstance(n.targets[0], ast.Name) and len(bound[n.targets[0].id]) == 1:
+                v = n.value
+                while isinstance(v, ast.Subscript):
+                    v = v.value
+                if isinstance(v, ast.Attribute):
+                    alias[n.targets[0].id] = v
+
+        def resolve(b):
+            return alias.get(b.id, b) if isinstance(b, ast.Name) else b
 
         def target_effect(t, node, kind_attr="rebind", kind_sub="elem"):
             if isinstance(t, (ast.Tuple, ast.List)):
@@ -427,6 +444,7 @@ class Repo:
                 # strip nested subscripts: a.b[i][j] = ... is an element store on a.b
                 while isinstance(b, ast.Subscript):
                     b = b.value
+                b = resolve(b)
                 if isinstance(b, ast.Attribute):
                     out.append(dict(kind=kind_sub, attr=b.attr, node=node, recv=b.value, sub=t))
                 elif isinstance(b, ast.Name):
@@ -448,6 +466,7 @@ class Repo:
                 r = n.func.value
                 while isinstance(r, ast.Subscript):
                     r = r.value
+                r = resolve(r)
                 if isinstance(r, ast.Attribute):
                     out.append(dict(kind="mut", attr=r.attr, node=n, recv=r.value, method=n.func.attr))
                 elif isinstance(r, ast.Name):
